@@ -144,15 +144,15 @@ def cop(op, cur_shape):
     if k == "iter_pick":
         return f"(OIterPick {op['k']})"
     if k == "narrow_method":
-        # the model's start is the one after `if start < 0: start += self.shape[dim]` (the implementation receives the negative one)
-        st = op["start"] + cur_shape[op["dim"] % len(cur_shape)] if op["start"] < 0 else op["start"]
-        return f"(ONarrowM {cz(op['dim'])} {st} {op['len']})"
+        return f"(ONarrowM {cz(op['dim'])} {cz(op['start'])} {op['len']})"
     if k == "copy":
         return "(OCopy " + {"copy": "CCopy", "deepcopy": "CDeep", "pickle": "CPickle"}[op["fn"]] + ")"
     if k == "append":
         return "OAppend"
     if k == "to_batch":
         return "OToBatch"
+    if k == "as_flows":
+        return "OAsFlows"
     raise ValueError(k)
 
 
@@ -271,7 +271,7 @@ OPS = [("unary", 8), ("binary", 6), ("reduce", 5), ("reduce_all", 1), ("scan", 2
        ("tensor_split_n", 3), ("tensor_split_idx", 3), ("chunk", 2), ("unbind", 2), ("flip", 4), ("roll", 3),
        ("permute", 4), ("expand", 2), ("repeat", 3), ("reshape", 4), ("spatial", 5), ("grid_sample", 1),
        ("getitem", 12), ("iter_build", 3), ("iter_pick", 2), ("narrow_method", 2), ("copy", 4), ("append", 2),
-       ("to_batch", 1)]
+       ("to_batch", 1), ("as_flows", 2)]
 
 
 def gen_index(rng, n, pos, numpy_ok=True):
@@ -317,7 +317,7 @@ def gen_step(rng, case, cur):
         if nd == 0 and k not in ("unary", "reduce_all", "copy"):
             continue
         if 0 in sh and k not in ("unary", "binary", "cat", "stack", "getitem", "copy", "chunk", "split", "unbind", "append",
-                                 "tensor_split_idx", "narrow", "index_select", "iter_build", "iter_pick"):
+                                 "tensor_split_idx", "narrow", "index_select", "iter_build", "iter_pick", "as_flows"):
             continue      # zero-size tensors: reductions etc. have special cases in torch that are not modelled
         if k == "unary":
             op["fn"] = rng.choice(["abs", "neg", "mul2", "double", "same_dtype", "clone", "torch_clone", "contiguous", "detach",
@@ -541,6 +541,9 @@ def gen_step(rng, case, cur):
             if rng.random() < 0.35:
                 st -= size                            # the same range counted from the end (also start + length == 0)
             op.update(dim=d, start=st, len=ln)
+        elif k == "as_flows":
+            if not batched:
+                continue          # FlowFields(batch) constructor (a plain tensor would get a new default grid: not modelled)
         elif k == "copy":
             op["fn"] = rng.choice(["copy", "deepcopy", "pickle"])
         elif k == "append":
@@ -830,6 +833,30 @@ def directed_cases(rng):
     for kind in ("I", "FI"):
         case(kind, 1, 2, [3, 4], [S({"op": "narrow_method", "dim": -1, "start": -2, "len": 2})])
         case(kind, 1, 2, [3, 4], [S({"op": "narrow_method", "dim": 1, "start": -1, "len": 1})])
+    # data that requires grad (the typed value is a non-leaf alias attached to the autograd graph of the data)
+    for kind in ("B", "F"):
+        for s1 in [S({"op": "copy", "fn": "copy"}), S({"op": "copy", "fn": "deepcopy"}), S({"op": "copy", "fn": "pickle"}),
+                   S({"op": "unary", "fn": "clone"}), S({"op": "unary", "fn": "detach"}), S({"op": "unary", "fn": "mul2"}),
+                   S({"op": "getitem", "tuple": False, "ix": [{"t": "slice", "a": 1, "b": 3, "c": None}]}),
+                   S({"op": "getitem", "tuple": False, "ix": [{"t": "int", "v": 1}]}),
+                   S({"op": "iter_build", "how": "from_images", "sel": [2, 0]}), S({"op": "iter_pick", "k": 1}),
+                   S({"op": "cat", "d": {"k": "none"}}, ("cur", 1)), S({"op": "append"}, ("cur", 0)),
+                   S({"op": "split", "size": 1, "d": {"k": "none"}, "fn": "func"}),
+                   S({"op": "narrow_method", "dim": 0, "start": -2, "len": 2}), S({"op": "as_flows"}),
+                   S({"op": "binary", "fn": "add"}, ("cur", 1))]:
+            case(kind, 3, 2, [3, 4], [s1])
+            out[-1]["cur"]["rg"] = True
+            for d in out[-1]["inputs"]:
+                d["rg"] = d["kind"] != "P"
+            case(kind, 3, 2, [3, 4], [s1, S({"op": "copy", "fn": "deepcopy"})])
+            out[-1]["cur"]["rg"] = True
+            if s1["op"]["op"] in ("iter_pick",) or (s1["op"]["op"] == "getitem" and s1["op"]["ix"][0]["t"] == "int"):
+                out[-1]["steps"][1]["cur_shape"] = out[-1]["cur"]["shape"][1:]
+    for kind in ("I", "FI"):
+        for s1 in [S({"op": "copy", "fn": "copy"}), S({"op": "copy", "fn": "deepcopy"}), S({"op": "copy", "fn": "pickle"}),
+                   S({"op": "unary", "fn": "clone"}), S({"op": "to_batch"})]:
+            case(kind, 1, 2, [3, 4], [s1])
+            out[-1]["cur"]["rg"] = True
     # copies of VIEWS: sub-batches, items, iteration items, split chunks, channel slices are views into the storage of the batch
     views = [S({"op": "getitem", "tuple": False, "ix": [{"t": "slice", "a": 1, "b": 3, "c": None}]}),
              S({"op": "getitem", "tuple": False, "ix": [{"t": "int", "v": 2}]}),
@@ -848,6 +875,13 @@ def directed_cases(rng):
         for sp in ([3, 4], [2, 3, 4]):
             case("F", 3, 2, sp, [S({"op": "append"}, ("cur", 0))], axes=ax, other_axes=ox)
             case("F", 3, 2, sp, [S({"op": "append"}, (0, "cur"))], axes=ax, other_axes=ox)
+    # three and more flow operands, one of them expressed in other axes (first / middle / last position): refused or converted,
+    # never labelled with the axes of another operand
+    for ax, ox in (("WORLD", "GRID"), ("CUBE", "CUBE_CORNERS"), ("GRID", "WORLD")):
+        for argsel in (("cur", 0, "cur"), ("cur", "cur", 0), (0, "cur", "cur"), ("cur", 0, 1), ("cur", 1, 0, "cur")):
+            case("F", 2, 2, [3, 4], [S({"op": "cat", "d": {"k": "none"}}, argsel)], axes=ax, other_axes=ox)
+            case("F", 2, 2, [3, 4], [S({"op": "cat", "d": {"k": "pos", "v": 1}}, argsel)], axes=ax, other_axes=ox)
+            case("F", 2, 2, [3, 4], [S({"op": "stack", "d": {"k": "none"}}, argsel)], axes=ax, other_axes=ox)
     # empty batches: slicing to N = 0, then operations on / with the empty batch
     empty = S({"op": "getitem", "tuple": False, "ix": [{"t": "slice", "a": 0, "b": 0, "c": None}]})
     for kind in ("B", "F"):
